@@ -156,3 +156,39 @@ def run(ctx):
     rec = [c for c in walk_no_nested(rtr.node) if isinstance(c, ast.Call) and call_name(c) == rtr.name]
     ctx.check(len(rec) >= 2, "R12.5", rtr.qualname, "recursion", loc(rtr, rtr.node),
               "nested containers are not recursed into in both branches", desc="containers recursed in both branches")
+
+    # ---------------- R12.6: an issue is never listed twice as the same object
+    ctx.rule("R12.6", "an issue taken out of a list and put back (as a variant with another code) is a copy, never the same dict object twice")
+    from sa.dataflow import ReachingDefs
+    n_alias = 0
+    for f in prog.functions.values():
+        if not f.module.name.startswith(("hed.validator", "hed.models", "hed.errors")):
+            continue
+        cand = {}
+        for st in walk_no_nested(f.node):
+            if isinstance(st, ast.Assign) and len(st.targets) == 1 and isinstance(st.targets[0], ast.Name):
+                v_ = st.value
+                is_copy = isinstance(v_, ast.Call) and call_name(v_) in ("copy", "deepcopy", "dict")
+                inner = v_.func.value if is_copy and isinstance(v_.func, ast.Attribute) else (v_.args[0] if is_copy and v_.args else v_)
+                if isinstance(inner, ast.Subscript) and isinstance(inner.value, ast.Name) and \
+                        isinstance(inner.slice, (ast.Constant, ast.UnaryOp, ast.Name)):
+                    cand[st.targets[0].id] = (st, inner.value.id, is_copy)
+        if not cand:
+            continue
+        for name, (st, lst, is_copy) in cand.items():
+            stored = any(isinstance(x, (ast.Assign, ast.AugAssign)) and any(
+                isinstance(t, ast.Subscript) and isinstance(t.value, ast.Name) and t.value.id == name
+                for t in (x.targets if isinstance(x, ast.Assign) else [x.target])) for x in walk_no_nested(f.node))
+            readded = any(
+                (isinstance(x, ast.AugAssign) and isinstance(x.target, ast.Name) and any(isinstance(y, ast.Name) and y.id == name for y in ast.walk(x.value)))
+                or (isinstance(x, ast.Call) and isinstance(x.func, ast.Attribute) and x.func.attr in ("append", "extend", "insert")
+                    and any(isinstance(y, ast.Name) and y.id == name for a in x.args for y in ast.walk(a)))
+                for x in walk_no_nested(f.node))
+            if stored and readded:
+                n_alias += 1
+                ctx.saw(f)
+                ctx.check(is_copy, "R12.6", f.qualname, st, loc(f, st),
+                          "`%s` is an element of `%s` itself (no copy), is modified and is put into a list again: the same dict is then "
+                          "listed twice, its code is overwritten for both entries, and context decoration appends the location suffix "
+                          "to its message twice" % (name, lst), desc="%s: re-listed issue variant `%s` is a copy" % (f.short, name))
+    ctx.floor("R12.6", "issue variants built from a list element", n_alias, 1)
